@@ -84,7 +84,10 @@ pub fn detect_win_multiplicator(
     // 4. Check special MTU cases
     if mss > 0 {
         if total_header > 0 {
-            check_mtu_div!(mss.saturating_add(total_header));
+            // an MSS so large that MSS + headers overflows has no such MTU
+            if let Some(mtu) = mss.checked_add(total_header) {
+                check_mtu_div!(mtu);
+            }
         } else {
             match ip_ver {
                 IpVersion::V4 => check_mtu_div!(mss.saturating_add(MIN_TCP4)),
